@@ -165,7 +165,14 @@ func decodeCmd(args []string) error {
 							prev = p.R
 						}
 					}
-					entry = []int{bits(viaN.R), bits(viaN.G), bits(viaN.B), bits(viaR.R), bits(viaR.G), bits(viaR.B), bits(viaE.R), bits(viaE.G), bits(viaE.B)}
+					// ... and as one channel of colours whose other channels differ (a channel's decoding does
+					// not depend on its neighbours)
+					c8 := uint8(c)
+					viaM, _ := sp.fromEnc(color.NRGBA{c8, ^c8, c8*31 + 7, 255})
+					viaM2, _ := sp.fromNRGB(color.NRGBA{c8 ^ 0x55, c8, ^c8, 255})
+					viaM3, _ := sp.fromRGBA(color.RGBA{0, c8 ^ 0xF0, c8, 255})
+					entry = []int{bits(viaN.R), bits(viaN.G), bits(viaN.B), bits(viaR.R), bits(viaR.G), bits(viaR.B), bits(viaE.R), bits(viaE.G), bits(viaE.B),
+						bits(viaM.R), bits(viaM2.G), bits(viaM3.B)}
 				} else {
 					viaE, _ := sp.fromEnc(color.NRGBA64{uint16(c), uint16(c), uint16(c), 65535})
 					viaP, _ := sp.fromEnc(color.RGBA64{uint16(c), uint16(c), uint16(c), 65535})
@@ -181,7 +188,12 @@ func decodeCmd(args []string) error {
 							prev = p.R
 						}
 					}
-					entry = []int{bits(viaE.R), bits(viaE.G), bits(viaE.B), bits(viaP.R), bits(viaP.G), bits(viaP.B)}
+					c16 := uint16(c)
+					viaM, _ := sp.fromEnc(color.NRGBA64{c16, ^c16, c16*31 + 7, 65535})
+					viaM2, _ := sp.fromEnc(color.RGBA64{c16 ^ 0x5555, c16, ^c16, 65535})
+					viaM3, _ := sp.fromEnc(color.NRGBA64{c16<<8 | c16>>8, 0, c16, 65535})
+					entry = []int{bits(viaE.R), bits(viaE.G), bits(viaE.B), bits(viaP.R), bits(viaP.G), bits(viaP.B),
+						bits(viaM.R), bits(viaM2.G), bits(viaM3.B)}
 					if c%257 == 0 {
 						if sp.from8 != nil {
 							cross = bits(sp.from8(uint8(c / 257)))
